@@ -372,38 +372,62 @@ def selftest(ctx, worlds):
     (asserted on every run)."""
     known = ["Life.OpAfterCloseRaises", "Last.PrettyOnlyWithDebug",
              "Stat.ServerTimeSuspendedIsZero", "Last.RequestLen"]
-    batch, muts = [], []
-    for mode, corr in (("stats", _c_stats), ("http", _c_http),
-                       ("mock", _c_mock)):
+    canon = {}
+    for mode in ("stats", "http", "mock"):
         w = H.run_calls(CANON[mode], final_peeks=False)
         base = copy.deepcopy(w.events)
         for e in base:
             e["waive"] = list(known)
-        batch.append(base)
-        muts.append((mode, "unchanged", None))
+        canon[mode] = (w, base)
+    n0, e0 = ctx.traces, ctx.events
+    vs = ctx.validate_traces(
+        "ConnLifeTrace", "ConnLifeTrace.cfg",
+        [canon[m][1] for m in ("stats", "http", "mock")],
+        label="self-test: canonical histories (deviations of the pinned "
+        "tree waived)")
+    usable = []
+    for mode, v in zip(("stats", "http", "mock"), vs):
+        if v["ok"]:
+            usable.append(mode)
+            continue
+        # the canonical history itself deviates on this tree: that is a
+        # finding like any other (and the corruption test has no base here)
+        w, base = canon[mode]
+        k = v["at"] - 1
+        for cl in sorted(v["clauses"]):
+            ctx.report(H.signature(mode, base[k], cl),
+                       "%s; canonical history: %s" % (
+                           cl, " ; ".join(w.calls[:k + 1])[-900:]),
+                       {"mode": mode, "calls": w.calls[:k + 1],
+                        "abstract_calls": abstract_calls(base[:k + 1]),
+                        "failing_event": base[k], "clauses": v["clauses"]})
+    batch, muts = [], []
+    for mode, corr in (("stats", _c_stats), ("http", _c_http),
+                       ("mock", _c_mock)):
+        if mode not in usable:
+            continue
+        base = canon[mode][1]
         for what, idx, fn in corr(base):
             t = copy.deepcopy(base)
             fn(t)
             batch.append(t)
             muts.append((mode, what, idx))
-    n0, e0 = ctx.traces, ctx.events
-    vs = ctx.validate_traces("ConnLifeTrace", "ConnLifeTrace.cfg", batch,
-                             label="self-test: canonical histories accepted, "
-                             "every copy with one corrupted field rejected")
-    ctx.traces, ctx.events = n0, e0
     res = []
-    for (mode, what, idx), v in zip(muts, vs):
-        if idx is None:
-            if not v["ok"]:
+    if batch:
+        vs = ctx.validate_traces(
+            "ConnLifeTrace", "ConnLifeTrace.cfg", batch,
+            label="self-test: every copy of a canonical history with one "
+            "corrupted field must be rejected")
+        for (mode, what, idx), v in zip(muts, vs):
+            if v["ok"] or v["at"] != idx + 1:
                 raise vlib.MachineryError(
-                    "self-test: canonical %s history rejected: %s" % (mode, v))
-            continue
-        if v["ok"] or v["at"] != idx + 1:
-            raise vlib.MachineryError(
-                "self-test: corrupted trace not rejected at the corrupted "
-                "event (%s, %s, event %d): %s" % (mode, what, idx, v))
-        res.append("%s: %s -> %s" % (mode, what, ",".join(v["clauses"])))
+                    "self-test: corrupted trace not rejected at the "
+                    "corrupted event (%s, %s, event %d): %s" %
+                    (mode, what, idx, v))
+            res.append("%s: %s -> %s" % (mode, what, ",".join(v["clauses"])))
+    ctx.traces, ctx.events = n0, e0
     ctx.extra["selftest_corrupted_traces_rejected"] = res
+    ctx.extra["selftest_modes"] = usable
 
 
 def collect_drift(ctx):
